@@ -51,6 +51,7 @@ def main():
     ap.add_argument('--tier', default=os.environ.get('VERIF_TIER', 'quick'), choices=['quick', 'thorough'])
     ap.add_argument('--replay')
     ap.add_argument('--selftest', action='store_true')
+    ap.add_argument('--fingerprint', action='store_true')
     ap.add_argument('--workers', type=int, default=None)
     ap.add_argument('--budget', type=float, default=None)
     args = ap.parse_args()
@@ -63,6 +64,9 @@ def main():
         if args.selftest:
             import selftest
             return selftest.main()
+        if args.fingerprint:
+            import selftest
+            return selftest.print_fingerprints()
         if args.check not in CHECKS:
             print('unknown check %r; known: %s' % (args.check, ', '.join(sorted(CHECKS))))
             return 2
